@@ -569,7 +569,7 @@ def slow(op):
 
 
 def sequences(ctx):
-    """quick: all sequences of length <= 2 over the whole alphabet, a seeded sample of 900 triples without split-Bregman calls,
+    """quick: all sequences of length <= 2 over the whole alphabet, a seeded sample of 500 triples without split-Bregman calls,
     all sequences of length <= 3 inside every group of operations that share an object.
     thorough: all of length <= 3 over the whole alphabet without split-Bregman calls plus 2500 sampled triples with one such
     (numba-compiling) call, all of
@@ -599,7 +599,7 @@ def sequences(ctx):
             emit(seq)
     else:
         fast = [o for o in alphabet if not slow(o)]
-        for _ in range(900):
+        for _ in range(500):
             emit([ctx.rng.choice(fast) for _ in range(3)])
     for name, g in GROUPS.items():
         for k in range(3, ctx.pick(3, 4) + 1):
@@ -799,7 +799,7 @@ def _run(ctx, d, zyg):
     metavals = []
     metatraces = []
     for si2, (seq, flags, res) in enumerate(zip(seqs, impl_eq, results)):
-        if any(in_model(o) for o in seq) and (len(seq) <= 2 or si2 % ctx.pick(2, 3) == 0):
+        if any(in_model(o) for o in seq) and (len(seq) <= 2 or si2 % 3 == 0):
             lines.append(model_line(seq))
             meta.append((seq, [f for o, f in zip(seq, flags) if in_model(o)], [r for o, r in zip(seq, res) if in_model(o)]))
             metavals.append([v for o, v in zip(seq, values[si2]) if in_model(o)])
@@ -879,7 +879,7 @@ def _run(ctx, d, zyg):
                                  "first_trace_difference": trace_bad})
         ctx.log(f"correspondence stateful-sequences: {ndiff} disagreements, e.g. {json.dumps(first[0])[:300]} impl={first[1]} model={first[2][:200]}")
 
-    ctx.cov["rule"] = ("sequences: quick = all of length <= 2 over the 38-operation alphabet + 900 sampled triples + all of length <= 3 inside each group; thorough = all of "
+    ctx.cov["rule"] = ("sequences: quick = all of length <= 2 over the 38-operation alphabet + 500 sampled triples + all of length <= 3 inside each group; thorough = all of "
                        "length <= 3 over the alphabet without split-Bregman calls + 2500 sampled triples with one such call + all of length <= 4 inside each "
                        "group sharing an object (default H1 solver, default split-Bregman solver, one Jacobi object, MG objects, Anderson objects); "
                        "both tiers: six distance objects (Newton/Bregman x direct-full/direct-pressure/amg-pressure) on 2 (quick) / 3 (thorough) successive pairs; EVERY call of every sequence is compared with "
